@@ -126,3 +126,10 @@ def str_tail(eng, st, s):
 def refnum(eng, st, x):
     """the reference (allocation number) of an object: later allocations have larger numbers"""
     return sv_int(get_ref(eng.as_val(st, x).t))
+
+
+@spec_function()
+def ghost(eng, st, obj, name):
+    """ghost attribute `name` of obj (written by the contract's ghost_on_return of the function that made obj)"""
+    n = name.s.as_string() if hasattr(name, "s") and z3.is_string_value(name.s) else str(name)
+    return SV(st.heap.get_field(get_ref(eng.as_val(st, obj).t), "$" + n), None)
